@@ -2,6 +2,7 @@ import Iavl.Model.Store
 import Iavl.Lemmas.Orphans2
 import Iavl.Lemmas.Sharing
 import Iavl.Generated.FactsOk
+import Iavl.Lemmas.VersionSharingN
 /-
   C12 — storage holds exactly the nodes reachable from retained versions. The executable audit
   `auditDump` (Model/Store.lean) decides the property on a concrete database image; it is run on the
@@ -18,6 +19,27 @@ theorem deleted_nodes_exact (v : Nat) (T T' : Node K V) (hT : Ordered T) (hT' : 
     (hle : AllLe v T) (hshare : ∀ s ∈ sharedRoots v T', Sub s T) :
     diff T (sharedRoots v T') = ((pre T).filter (fun n => decide (¬ Sub n T')), []) :=
   orphans_correct v T T' hT hT' hle hshare
+
+/-- the same for every reachable state of the version machine: between any two consecutive retained
+    versions the deleted set is exactly the unreachable set (see C04 `orphans_exact_of_every_history`) -/
+theorem deleted_nodes_exact_in_every_history (iv : Option Nat) (ops : List (Op K V)) (u : Nat) (T T' : Node K V)
+    (h1 : (u, some T) ∈ (stateAfter (initT iv) ops).versions)
+    (h2 : (u + 1, some T') ∈ (stateAfter (initT iv) ops).versions) :
+    diff T (sharedRoots u T') = ((pre T).filter (fun n => decide (¬ Sub n T')), []) := by
+  have hn := stateAfter_ninv (initT iv : VState (OTree K V)) (ninv_init iv) ops
+  have hi := stateAfter_inv (initT iv : VState (OTree K V))
+    ⟨trivial, trivial, by intro q hq; simp [initT] at hq⟩ ops
+  have gT : Good T := hi.gv _ h1
+  have gT' : Good T' := hi.gv _ h2
+  refine orphans_correct u T T' gT.1 gT'.1 (hn.allLe _ h1) ?_
+  intro s hs
+  exact hn.pairs u (some T) (some T') h1 h2 s (sharedRoots_sub u T' s hs) (sharedRoots_sharedAt u T' s hs)
+
+/-- every node of a retained version was persisted at or before that version, in every reachable state:
+    a version never refers to a node of a later version -/
+theorem versions_refer_backwards (iv : Option Nat) (ops : List (Op K V)) (u : Nat) (T : Node K V)
+    (h1 : (u, some T) ∈ (stateAfter (initT iv) ops).versions) : AllLe u T :=
+  (stateAfter_ninv (initT iv : VState (OTree K V)) (ninv_init iv) ops).allLe _ h1
 
 /-- the audit's node decoder inverts the encoder on every well-formed record -/
 theorem audit_decoder_sound (n : NodeRec) (hwf : NodeWF n) : decNode (encNode n) = some n :=
